@@ -160,29 +160,8 @@ def check(ctx):
     if rows_iter is not None:
         ctx.ob("R13.2", fq, None, ok, "rows are stringified with astype(str) before merging" if ok else
                f"rows iterate over {show(rows_iter, maxdepth=3)[:80]}, not the stringified block", construct="astype(str)")
-    # R13.3: validator reaches the merge under the multi-column test, for both features
-    Av = Analysis(ctx, no_inline=[fq])
+    r133_merge_test(ctx, "R13.3")
     val = M_IV + ":_validate_and_reformat_input"
-    rv = Av.run(val)
-    merges = calls_to(rv, fq)
-    ctx.floor("R13.3", "calls of _merge_columns in the validator", len(merges), 2)
-    feats = {}
-    for key in ("_KW_SENSITIVE_FEATURES", "_KW_CONTROL_FEATURES"):
-        f = Av.entry(rv, f"kwargs.get({key})")
-        feats[key] = f
-    for key, f in feats.items():
-        mine = [m for m in merges if contains(arg(m, 0), lambda s: s is f)]
-        ok = False
-        if mine:
-            m = mine[0]
-            x = arg(m, 0)
-            cond = Av.C.canon(m.pc[-1])
-            want = Av.C.canon(Av.spec("len(x.shape) > 1 and x.shape[1] > 1", {"x": x, "len": glob("builtins.len")}))
-            ok = cond is want and x.op == "call" and x.args[0] is glob("sklearn.utils.validation.check_array")
-            # the merged value replaces the feature
-            ok = ok and any(e.kind == "store" and e.seq > m.seq and e.data.get("value") is m.data["result"] for e in rv.events)
-        ctx.ob("R13.3", val, mine[0].node if mine else None, ok, f"{key[4:].lower()}: a block with more than one column is "
-               "merged (after check_array) under exactly the `ndim > 1 and shape[1] > 1` test", construct=f"merge of {key}")
     # who calls _merge_columns / who joins strings
     callers = set()
     joiners = set()
@@ -292,3 +271,34 @@ def _r135(ctx):
         ctx.ob("R13.5", r.func, e.node, ok, f"stratified event '{s}': the event is the suffix after the last {sep_!r} and "
                f"event names {events}+digits never contain it, so (control, event) is recovered uniquely" if ok else why,
                construct="control/event code")
+
+
+def r133_merge_test(ctx, rule):
+    """the validator merges a feature block exactly when it has more than one column (a single-column 2-d block is the
+    1-d vector: its labels are not stringified), for both the sensitive and the control features"""
+    fq = M_IV + ":_merge_columns"
+    if rule != "R13.3":
+        ctx.rule(rule, "a single-column 2-d feature block is treated like the 1-d vector: the validator merges (and thereby "
+                       "stringifies) a block exactly under `ndim > 1 and shape[1] > 1` (shared with C13 R13.3)")
+    Av = Analysis(ctx, no_inline=[fq])
+    val = M_IV + ":_validate_and_reformat_input"
+    rv = Av.run(val)
+    merges = calls_to(rv, fq)
+    ctx.floor(rule, "calls of _merge_columns in the validator", len(merges), 2)
+    feats = {}
+    for key in ("_KW_SENSITIVE_FEATURES", "_KW_CONTROL_FEATURES"):
+        f = Av.entry(rv, f"kwargs.get({key})")
+        feats[key] = f
+    for key, f in feats.items():
+        mine = [m for m in merges if contains(arg(m, 0), lambda s: s is f)]
+        ok = False
+        if mine:
+            m = mine[0]
+            x = arg(m, 0)
+            cond = Av.C.canon(m.pc[-1])
+            want = Av.C.canon(Av.spec("len(x.shape) > 1 and x.shape[1] > 1", {"x": x, "len": glob("builtins.len")}))
+            ok = cond is want and x.op == "call" and x.args[0] is glob("sklearn.utils.validation.check_array")
+            # the merged value replaces the feature
+            ok = ok and any(e.kind == "store" and e.seq > m.seq and e.data.get("value") is m.data["result"] for e in rv.events)
+        ctx.ob(rule, val, mine[0].node if mine else None, ok, f"{key[4:].lower()}: a block with more than one column is "
+               "merged (after check_array) under exactly the `ndim > 1 and shape[1] > 1` test", construct=f"merge of {key}")
